@@ -60,7 +60,7 @@ pub fn spec(id: &str) -> Option<PropSpec> {
         },
         "C16" => PropSpec {
             id: "C16",
-            batches: vec![b("lru", 60_000, 3_000_000, false), b("bdd", 30_000, 1_500_000, true), b("bddmid", 8_000, 300_000, true), b("sdd", 30_000, 1_500_000, true), b("semhash", 8_000, 400_000, true)],
+            batches: vec![b("lru", 60_000, 3_000_000, false), b("bdd", 30_000, 1_500_000, true), b("bddmid", 8_000, 300_000, true), b("sdd", 30_000, 1_500_000, true), b("sddmid", 8_000, 300_000, true), b("semhash", 8_000, 400_000, true)],
             rule: "lru world: one case = an insert/get history on the real util::lru::Lru with adversarial colliding hashes, capacities 2^0..2^5 and forced growth; bdd world: the same history is executed on the builder under test (lossy cache, tiny capacities, forgetting/growth faults) and on a fault-free twin that caches every application; every result must have the same canonical structural signature; sdd world: same with apply-/ite-cache forgetting against a fault-free twin (compressed and uncompressed); semhash world: the hash-identified SDD builder with its product-hash apply cache forgetting against a fault-free twin (same function). Distinct = distinct event-log hash. Non-trivial: lru = at least one hit and two keys; bdd = non-constant result and a fault/knob effect.",
             states_measure: "distinct truth tables produced (bdd) / distinct hit counts (lru)",
             probe_prefixes: &["Lru", "BddIteCacheHit", "Ite"],
@@ -105,21 +105,21 @@ pub fn spec(id: &str) -> Option<PropSpec> {
         },
         "C03" => PropSpec {
             id: "C03",
-            batches: vec![b("sdd", 60_000, 3_000_000, true)],
+            batches: vec![b("sdd", 60_000, 3_000_000, true), b("sddmid", 12_000, 500_000, true)],
             rule: "one case = one seeded run: a generated history of 8-160 operations by 1-4 logical callers on one CompressionSddBuilder (vtree: right-linear, left-linear, balanced, random shape, random leaf labelling, 1-7 variables; compression on or off; tiny-to-shipped table capacities; apply-/ite-cache forgetting and early table growth; placement). Distinct = distinct event-log hash. Non-trivial = at least one result that is a decision node AND a fault fired or a table grew/displaced.",
             states_measure: "distinct truth tables produced as results",
             probe_prefixes: &["Sdd", "Table", "IteIntro", "IteReorder", "IteStd"],
-            assumptions: &["functions over at most 7 variables (truth-table oracle)", "compose judged against its documented definition", "seeded sampling, not exhaustive"],
+            assumptions: &["sdd world: functions over at most 7 variables (truth-table oracle); sddmid world: 8-20 variables judged on a sampled sub-cube of 512 points, condition/exists/compose only on its 7 free variables", "compose judged against its documented definition", "seeded sampling, not exhaustive"],
             real: &["rsdd CompressionSddBuilder (SddBuilder/BottomUpBuilder impls), VTreeManager, unique tables, apply and ite caches, SddPtr/SddOr/BinarySDD"],
             simulated: SIM_COMMON,
         },
         "C04" => PropSpec {
             id: "C04",
-            batches: vec![b("sdd", 60_000, 3_000_000, true)],
+            batches: vec![b("sdd", 60_000, 3_000_000, true), b("sddmid", 12_000, 500_000, true)],
             rule: "as C03 with compression always on; in addition every decision node reachable from every result is audited from the truth tables of its elements (primes non-false / disjoint / exhaustive / left variables only, subs right variables only and pairwise different, not trimmable, binary-node label = left leaf), a run-global function->pointer map covers all handles and all reachable sub-diagrams (literals and constants pre-seeded), and at end of run every live node is looked up again through get_or_insert_bdd/get_or_insert_sdd.",
             states_measure: "distinct truth tables produced as results",
             probe_prefixes: &["Sdd", "Table"],
-            assumptions: &["functions over at most 7 variables", "sub-diagrams (primes, subs) count as SDDs of the builder", "seeded sampling, not exhaustive"],
+            assumptions: &["sdd world: functions over at most 7 variables; sddmid world (8-20 variables): only the parts of the statement that are structural or sound from 512 sampled points (no false prime, primes never overlap / always cover on samples, side-of-vtree dependence on the sub-cube, distinct sub pointers, not trimmable, re-lookup, re-issue)", "sub-diagrams (primes, subs) count as SDDs of the builder", "seeded sampling, not exhaustive"],
             real: &["rsdd CompressionSddBuilder with compression, VTreeManager, unique tables"],
             simulated: SIM_COMMON,
         },
